@@ -1,4 +1,5 @@
 import CG.Proofs.C14
+import CG.Proofs.C14Idem
 
 #print axioms CG.C14.minimal_ok
 #print axioms CG.C14.minimal_edges
@@ -6,6 +7,8 @@ import CG.Proofs.C14
 #print axioms CG.C14.minimal_meta
 #print axioms CG.C14.minimal_hyp
 #print axioms CG.C14.minimal_idem_shape
+#print axioms CG.C14.minimal_idem
+#print axioms CG.C14.isMinimal_of_minimal
 #print axioms CG.C14.minimal_attrs
 #print axioms CG.C14.isMinimal_iff
 #print axioms CG.C14.isMinimal_ok
